@@ -4,7 +4,7 @@ from ..cmp import cmp_bits_list
 from .. import samples as S, sample_checks as SC
 
 MODULE = "Momtrop.Props.C14"
-THEOREMS = []
+THEOREMS = ["Momtrop.C14.chooseEdge_spec", "Momtrop.C14.permLoop_reads", "Momtrop.C14.permutahedral_reads", "Momtrop.C14.sample_reads_dim", "Momtrop.C14.lambda_depends_one", "Momtrop.C14.gaussian_depends_pair"]
 RULE = ("accepted connected graphs (1..4 loops, D=1..6 so that D*L is odd and even), points of length get_dimension()+3; the real generic "
         "code runs with a dependency-tracking scalar (value + set of coordinates + log of comparisons and narrowings): used coordinates, "
         "data/control dependencies of Feynman parameters, lambda and every Gaussian component; plus perturbation of every single "
